@@ -30,7 +30,8 @@ MIN_COUNTERS = dict(quick={'sequences_asserted': 2000, 'elements_asserted': 1500
 EXHAUSTIVE = dict(quick=False, thorough=False)
 EXHAUSTIVE_NOTE = ('the coupling grid methods x n 1..10 x order 1..10 x {default, MinStepGenerator(), '
                    'MaxStepGenerator()} is enumerated completely in every run (shard 0); option records are sampled')
-RULE = ('(a) complete grid {central, forward, backward, complex, multicomplex(n<=2)} x n 1..10 x order 1..10: '
+RULE = ('x also integer-typed, numeric options also as Python ints, and in 40 % of the cases the generator instance has produced sequences for other (x, method, n, order) before. ' 
+        '(a) complete grid {central, forward, backward, complex, multicomplex(n<=2)} x n 1..10 x order 1..10: '
         'default step count >= length of the rule the real LogRule returns, and the real Derivative(exp)(1.0) does not '
         'raise for lack of steps, for the default generator, MinStepGenerator() and MaxStepGenerator(); (b) random option '
         'records (base_step, step_ratio, num_steps, step_nom, offset, num_extrap, use_exact_steps, check_num_steps, scale; '
